@@ -98,6 +98,14 @@ def flaggedAll (dims : List (Option Range × Array Rat)) : List Part → Nat →
     && (p.usr == 0 || visAll dims (start + p.usr - 1) || decide (0 < p.trim))
     && flaggedAll dims ps (start + p.raw)
 
+/-- the points a part view hands out (span `a+b` inside the drawn points that start at `c`) are visible in
+    every applied dimension; `start` = data position of the part's first point -/
+def reportedAll (dims : List (Option Range × Array Rat)) : List Part → List (Nat × Int × Nat × Nat) → Nat → Bool
+  | p :: ps, (a, b, c, _) :: spans, start =>
+    ((List.range b.toNat).all fun j => visAll dims (start + (a - c) + j)) && reportedAll dims ps spans (start + p.raw)
+  | [], [], _ => true
+  | _, _, _ => false
+
 def validMulti (s : St) (ps : List Part) : Bool :=
   let dims := s.xdims.map fun d => ((if s.xtr = 2 then none else s.xrange.getD d none), (s.xdata.getD d []).toArray)
   decide (sumRaw ps = s.xlen)
@@ -170,13 +178,52 @@ def xstep (s : St) (w : List String) : St × String :=
         let s1 := { s with xarr := ps, xdims := if s.xdims.contains k then s.xdims else k :: s.xdims, xlen := xlen }
         (s1, xdump s1 "ok")
     | none => (s, "bad-op")
+  | ["xl", "pset", n] =>
+    -- polyline::set: parts for the points, then every store applied as its dimension
+    match Dyadic.parseNat n with
+    | some k =>
+      let len := (s.xdata.getD 0 []).length
+      if k < 1 ∨ k > 3 ∨ len = 0 ∨ (List.range k).any (fun d => (s.xdata.getD d []).length ≠ len) then (s, "bad-op")
+      else
+        let ps := (List.range k).foldl (fun acc d =>
+          match arrayApply acc (s.xdata.getD d []) (if s.xtr = 2 then none else s.xrange.getD d none) with
+          | some q => q
+          | none => acc) (arraySet len)
+        let s1 := { s with xarr := ps, xdims := List.range k, xlen := len }
+        let out := xdump s1 (if lengthUser ps = 0 then "refused" else "ok")
+        (s, out.replace s!"I len={len}" s!"I len={len} walked={ps.length}")
+    | none => (s, "bad-op")
+  | ["xl", "reset"] =>
+    let s1 := { s with xarr := arraySet (lengthRaw s.xarr), xdims := [] }
+    (s1, xdump s1 "ok")
+  | ["xl", "applybad"] => (s, xdump s "refused")
+  | ["xl", "wjoin", a, b] =>
+    match parsePart a, parsePart b with
+    | some to, some post =>
+      if [to.raw, to.usr, to.cut, to.trim, post.raw, post.usr, post.cut, post.trim].any (· > 65535) then (s, "bad-op") else
+      let tot := s!"raw={to.raw + post.raw} usr={to.usr + post.usr}"
+      match linepartJoin to post with
+      | some j => (s, s!"R joined {fmtPart j} cut={j.cut} trim={j.trim} | C raw={j.raw} usr={j.usr} | I - | S * ; {tot}")
+      | none => (s, s!"R refused {fmtPart to} | C {tot} | I - | S * ; {tot}")
+    | _, _ => (s, "bad-op")
+  | ["xl", "wcode", v] =>
+    match Dyadic.parse v with
+    | some f =>
+      let c := code f
+      if c < 0 then (s, "R refused cut=7 trim=9 | C - | I - | S refused cut=7 trim=9 ; *")
+      else (s, s!"R ok cut={c} trim={c} | C - | I - | S * ; *")
+    | none => (s, "bad-op")
   | ["xl", "dump"] => (s, xdump s "ok")
   | ["xl", "poly"] =>
     let ps := polyParts s.xarr 0
     let txt := if ps.isEmpty then "-" else ",".intercalate (ps.map fun (a, b, c, d) => s!"{a}+{b}/{c}+{d}")
-    -- spec: the points of a part are its drawn points without an out-of-range first / last point
+    -- spec: the points of a part lie inside its drawn points, and every point handed out is visible in every
+    -- applied dimension (the drawn points without an out-of-range first / last point)
     let sane := ps.all fun (a, b, c, d) => 0 ≤ b ∧ a + b.toNat ≤ lengthUser s.xarr ∧ c + d ≤ lengthUser s.xarr
-    (s, s!"R spans={txt} | C - | I - | S " ++ (if sane then s!"spans={txt} ; *" else "!invalid ; *"))
+    let dims := s.xdims.map fun d => ((if s.xtr = 2 then none else s.xrange.getD d none), (s.xdata.getD d []).toArray)
+    let judged := s.xlen * (s.xarr.length + 1) ≤ 2000000
+    let visible := !judged || reportedAll dims s.xarr ps 0
+    (s, s!"R spans={txt} | C - | I - | S " ++ (if sane && visible then s!"spans={txt} ; *" else "!invalid ; *"))
   | _ => (s, "bad-op")
 
 def step (s : St) (w : List String) : St × String :=
